@@ -30,7 +30,7 @@ def run(rep, tier, seed):
             dict(name="core_len4", maxinstr=4, maxhist=1, ops="OpsCore", points="PtsP1small", seeds="NoSeeds", rec_kinds=("U", "A", "V"), max_replay=20000),
         ]
     T.tracer_check(rep, configs, "C05")
-    T.full_api_replays(rep, seed, n=48 if q else 400)
+    T.full_api_replays(rep, seed, n=300 if q else 1500)
     T.validate_recorded(rep, "C05", repo_tests=True)
     T.self_test(rep)
     return rep.finish("one case = (program recorded instruction by instruction, sequence of re-evaluations with inputs of kind "
